@@ -40,6 +40,10 @@ class Obligation:
         return h
 
 
+class Shortfall(AnalysisError):
+    """A rule matched fewer sites than its frozen minimum."""
+
+
 class Ctx:
     """Per run context handed to every rule."""
 
@@ -55,6 +59,7 @@ class Ctx:
         self.site_counts: dict[str, int] = {}
         self.only_instance = only_instance
         self.rules_run: list[str] = []
+        self.shortfalls: list[str] = []
 
     # ---------------------------------------------------------------- recording
     def touch(self, fi: FunctionInfo) -> FunctionInfo:
@@ -99,11 +104,16 @@ class Ctx:
         """Non-vacuity floor: fewer matched sites than confirmed by hand => analysis broken."""
         self.site_counts[f"{rule}:{what}"] = count
         if count < minimum:
-            raise AnalysisError(
+            msg = (
                 f"{rule}: only {count} site(s) of '{what}' matched, frozen minimum is {minimum} "
                 "(the code moved away from the shape this rule was written for; the rule must be "
                 "re-confirmed, it cannot pass vacuously)"
             )
+            self.shortfalls.append(msg)
+            if count == 0:
+                # nothing to evaluate: stop this rule here, the run ends as a violation (if other
+                # obligations already failed) or as ANALYSIS-ERROR - never as a pass
+                raise Shortfall(msg)
 
     def note(self, text: str) -> None:
         self.notes.append(text)
